@@ -2,7 +2,10 @@
    RootVisitor.visit_AssignBlock visits the body and then (since /repo commit 6c2621d) the filter node,
    so the names in the filter arguments are analysed for the block's frame — before the code generator
    creates the frames inside the body.  Modelled next to the statement AST (which has no filter field)
-   for the K-sym tie: a template  pre ++ [the filtered block set]. *)
+   for the K-sym tie: a template  pre ++ [the filtered block set].
+   Since /repo's fix "names in the filter arguments of a set block are read by the enclosing frame before the
+   target is stored" FrameSymbolVisitor.visit_AssignBlock visits the filter (then the target) in the ENCLOSING
+   frame too, like visit_FilterBlock: root_setblock_f. *)
 From Coq Require Import List NArith ZArith Bool.
 Import ListNotations.
 From JV Require Import Model.ScopeAst Model.ScopeIdTrack.
@@ -12,8 +15,12 @@ Section F.
   Definition frame_setblock_f (chain : list symbols) (body : list stmt) (args : list expr) : symbols :=
     sym_loads chain (fsv_list ord chain (sym_new chain) body) (exprs_names args).
   (* every frame in enter_frame order *)
+  Definition root_setblock_f (pre : list stmt) (x : name) (args : list expr) (body : list stmt) : symbols :=
+    let s := sym_new [] in
+    let s := if nmem n_self (find_undeclared (pre ++ [SSetBlock x body]) [n_self]) then sym_param s n_self else s in
+    sym_store [] (sym_loads [] (fsv_list ord [] s pre) (exprs_names args)) x.
   Definition frames_setblock_f (pre : list stmt) (x : name) (args : list expr) (body : list stmt) : list (list symbols) :=
-    let root := [frame_root ord (pre ++ [SSetBlock x body])] in
+    let root := [root_setblock_f pre x args body] in
     let f := frame_setblock_f root body args :: root in
     root :: frames_list ord root pre ++ f :: frames_list ord f body.
 End F.
